@@ -1,4 +1,4 @@
-import MuscleModel.Reflector.IndexProofsReorder
+import MuscleModel.Reflector.IndexProofsReach
 
 /-!
 # C13 — An ordered child index replayed from its update log equals the server's index
@@ -9,7 +9,8 @@ client `replay`/`replayAll`, `InRange`, `IdxInv`, `AllNodes`, `IdxOp`, `runOps`,
 `IndexProofsTree.lean`, `IndexProofsSrv.lean`, `IndexProofsOps.lean`, `IndexProofsRemove.lean`,
 `IndexProofsSeq.lean`, `IndexProofsAll.lean` (whole trees), `IndexProofsAuto.lean` (generated names),
 `IndexProofsSet.lean` (`SetDataNode`, handlers), `IndexProofsSnap.lean` (`doGetData`'s snapshot),
-`IndexProofsReorder.lean` (REORDERDATA handler).
+`IndexProofsTrav.lean` (every traversal visit is an existing node), `IndexProofsReorder.lean` (REORDERDATA handler),
+`IndexProofsReach.lean` (every engine command, every engine state).
 
 How the statements fit together.
 
@@ -87,12 +88,13 @@ theorem removeIndexEntry_silent {sv : Server} {parent : List Bytes} {p : Node} {
     removeIndexEntry sv parent key notify = sv :=
   removeIndexEntry_none notify h hi
 
-/-- `InsertOrderedChild(data, before, name)`: the equation exposing the instruction (`insertOrderedPre` is the
-    explicit state at the time of the notification: counter advanced, child put, entry inserted), the parent
-    afterwards, and the client's replay.  Position = last entry named `before`, default end; name = the given
-    one or the generated `I<n>`. -/
+/-- `InsertOrderedChild(data, before, name)` with `before ≠ "!Rmv"`: the equation exposing the instruction
+    (`insertOrderedPre` is the explicit state at the time of the notification: counter advanced, child put, entry
+    inserted), the parent afterwards, and the client's replay.  Position = last entry named `before`, default
+    end; name = the given one or the generated `I<n>`. -/
 theorem log_replay_insertOrderedChild {sv : Server} {parent : List Bytes} {p : Node} (by_ : Nat) (d : Option Nat)
-    (before name : Bytes) (nc : Bool) (h : getNode sv parent = some p) :
+    {before : Bytes} (name : Bytes) (nc : Bool) (h : getNode sv parent = some p)
+    (hb : before ≠ removeFromIndexName) :
     ∃ p', getNode (insertOrderedPre sv by_ parent d (ordPair p name).1 (ordPair p name).2 (insertPos p.index before) nc)
           parent = some p' ∧
       insertOrderedChild sv by_ parent d before name nc =
@@ -101,14 +103,34 @@ theorem log_replay_insertOrderedChild {sv : Server} {parent : List Bytes} {p : N
       getNode (insertOrderedChild sv by_ parent d before name nc) parent = some p' ∧
       (∃ c, c.name = (ordPair p name).1 ∧ p'.kids = putKid c p.kids) ∧
       replayAll p.index [(Instr.ins (insertPos p.index before) (ordPair p name).1).render] = some p'.index := by
-  refine ⟨_, getNode_insertOrderedPre _ _ _ _ _ _ h, insertOrderedChild_emits by_ d before name nc h,
-    getNode_insertOrderedChild by_ d before name nc h, ?_, ?_⟩
+  refine ⟨_, getNode_insertOrderedPre _ _ _ _ _ _ h, insertOrderedChild_emits by_ d name nc h hb, ?_, ?_, ?_⟩
+  · rw [insertOrderedChild_emits by_ d name nc h hb, getNode_notifyIndex]
+    exact getNode_insertOrderedPre _ _ _ _ _ _ h
   · obtain ⟨c, h1, _, _, h2⟩ := insertOrderedNode_kids sv parent p d (ordPair p name).1 (ordPair p name).2 (insertPos p.index before)
     exact ⟨c, h1, h2⟩
   · have := replayAll_render p.index [Instr.ins (insertPos p.index before) (ordPair p name).1]
     simp only [List.map_cons, List.map_nil] at this
     rw [this]
     simp [applyAll, apply_ins_insertPos]
+
+/-- `InsertOrderedChild(data, "!Rmv", name)` (PR_NAME_REMOVE_FROM_INDEX): the child is created but not indexed —
+    the function IS the state after the put (`insertOrderedPut`: counter advanced, child stored; nothing is handed
+    to `notifyIndex`), the parent's index is unchanged, and the empty log replays to it. -/
+theorem log_replay_insertOrderedChild_unindexed {sv : Server} {parent : List Bytes} {p : Node} (by_ : Nat)
+    (d : Option Nat) (name : Bytes) (nc : Bool) (h : getNode sv parent = some p) :
+    insertOrderedChild sv by_ parent d removeFromIndexName name nc =
+        insertOrderedPut sv by_ parent d (ordPair p name).1 (ordPair p name).2 nc ∧
+      ∃ p', getNode (insertOrderedChild sv by_ parent d removeFromIndexName name nc) parent = some p' ∧
+        p'.index = p.index ∧ (∃ c, c.name = (ordPair p name).1 ∧ p'.kids = putKid c p.kids) ∧
+        replayAll p.index [] = some p'.index := by
+  refine ⟨insertOrderedChild_unindexed by_ d name nc h rfl,
+    insertOrderedPutNode sv parent p d (ordPair p name).1 (ordPair p name).2, ?_, ?_, ?_, ?_⟩
+  · rw [insertOrderedChild_unindexed by_ d name nc h rfl]
+    exact getNode_insertOrderedPut _ _ _ _ _ h
+  · simp
+  · obtain ⟨c, h1, _, _, h2⟩ := insertOrderedPutNode_kids sv parent p d (ordPair p name).1 (ordPair p name).2
+    exact ⟨c, h1, h2⟩
+  · simp [replayAll]
 
 /-- `ReorderChild(child, before)` emits: nothing (before itself / remove-from-index of something in an empty
     index), the removal alone (`before = "!Rmv"`), or the removal (if the child was indexed) followed by an
@@ -225,16 +247,16 @@ theorem positions_in_range_snapshot (clientIx ix : List Bytes) :
 
 /-! ## 3. the index lists existing children, each at most once -/
 
-/-- One operation keeps the invariant of the node whose children it works on.  `IdxOp.ok`: the name
-    `InsertOrderedChild` uses is not already an indexed child; `ReorderChild` names an existing child (or
-    removes from the index). -/
+/-- One operation keeps the invariant of the node whose children it works on.  `IdxOp.ok`: `InsertOrderedChild`
+    does not index (`before = "!Rmv"`) or the name it uses is not already an indexed child; `ReorderChild` names
+    an existing child (or removes from the index). -/
 theorem index_sound_step {sv : Server} {parent : List Bytes} {p : Node} (op : IdxOp)
     (h : getNode sv parent = some p) (hinv : IdxInv p) (hok : op.ok p) :
     ∃ p', getNode (op.run parent sv) parent = some p' ∧ IdxInv p' :=
   op.step_inv h hinv hok
 
 example : (IdxOp.reorder [98] [97]).ok exNode := by simp [IdxOp.ok, exNode, findKid, Node.name, Node.kids]
-example : (IdxOp.insert 0 none [] [99] true).ok exNode := by left; decide
+example : (IdxOp.insert 0 none [] [99] true).ok exNode := by right; left; decide
 
 /-- …and so does every sequence of operations. -/
 theorem index_sound_run {parent : List Bytes} (ops : List IdxOp) {sv : Server} {p : Node}
@@ -284,13 +306,13 @@ theorem log_replay_setDataNode {sv : Server} {cur : List Bytes} {p : Node} (by_ 
     fun c hk => setDataClauses_last_present by_ d cl h hk, fun hk => ?_⟩
   have he := setDataClauses_last_absent by_ d cl h hk
   refine ⟨he, ?_⟩
-  obtain ⟨p', _, _, hg, _, hr⟩ := log_replay_insertOrderedChild by_ d [] cl true h
+  obtain ⟨p', _, _, hg, _, hr⟩ := log_replay_insertOrderedChild by_ d cl true h nil_ne_removeFromIndexName
   exact ⟨p', by rw [he]; exact hg, hr⟩
 
 
 example : findKid [99] exNode.kids = none := by decide
 
-/-! ## 3b. the invariant over whole trees (`TreeInv sv`: `IdxInv` at every node) -/
+/-! ## 3b. the invariant over whole trees (`TreeInv sv`: at every node `NodeInv` = `IdxInv` ∧ sibling names distinct) -/
 
 /-- the generated name `I<n>` is never the name of an existing child (`kids.length + 1` attempts, pairwise
     different candidates) -/
@@ -303,17 +325,18 @@ theorem index_sound_init : TreeInv ({} : Server) := AllNodes.fresh _ _
 /-- plain `PutChild` (also when it replaces an indexed child of the same name: the entry then refers to the new
     child), for any child whose own subtree is sound -/
 theorem index_sound_putChild {sv : Server} (by_ : Nat) (parent : List Bytes) (child : Node) (notify : Bool)
-    (h : TreeInv sv) (hc : AllNodes IdxInv child) : TreeInv (putChild sv by_ parent child notify) :=
+    (h : TreeInv sv) (hc : AllNodes NodeInv child) : TreeInv (putChild sv by_ parent child notify) :=
   treeInv_putChild by_ parent child notify h hc
 
-/-- `InsertOrderedChild`, provided the name used is not already an indexed child of the parent (always true for
+/-- `InsertOrderedChild`, provided it does not index (`before = "!Rmv"`) or the name used is not already an indexed
+    child of the parent (always true for
     generated names, `generated_name_fresh`, and for `SetDataNode`, which only inserts absent children).  Without
     this hypothesis the statement is false in the model and in the C++ alike: `InsertOrderedChild(…, name)` with
     `name` an indexed child appends a second entry of that name. -/
 theorem index_sound_insertOrderedChild {sv : Server} (by_ : Nat) (parent : List Bytes) (d : Option Nat)
     (before name : Bytes) (nc : Bool) (h : TreeInv sv)
     (hok : ∀ p, getNode sv parent = some p →
-      findKid (ordPair p name).1 p.kids = none ∨ (ordPair p name).1 ∉ p.index) :
+      before = removeFromIndexName ∨ findKid (ordPair p name).1 p.kids = none ∨ (ordPair p name).1 ∉ p.index) :
     TreeInv (insertOrderedChild sv by_ parent d before name nc) :=
   treeInv_insertOrderedChild by_ parent d before name nc h hok
 
@@ -352,20 +375,53 @@ theorem index_sound_handlers {sv : Server} (h : TreeInv sv) :
    fun slot host => treeInv_attach slot host h,
    fun sid => treeInv_detach sid h⟩
 
-/-- PR_COMMAND_REORDERDATA.  Hypothesis: the traversal hands the handler existing nodes only (a statement about
-    `travSession`/`doTraversal`, not about the index; it is what the C++ gets for free from holding node
-    pointers).  Inside the loop the proof shows that reorders never make a node disappear. -/
-theorem index_sound_reorder_partial {sv : Server} (sid : Nat) (key before : Bytes) (h : TreeInv sv)
-    (hex : ∀ s, sv.sess? sid = some s →
-      ∀ v ∈ travSession sv s (pmOfKeys [(key, none)] none) cbContinue, (getNode sv v).isSome) :
+/-- Every path the wildcard traversal hands to a handler is the name path of an existing node — for every
+    matcher, callback and fuel (no pattern laws needed). -/
+theorem traversal_visits_exist {sv : Server} (s : Sess) (pm : PM) (cb : Visit → Nat → Node → Bool × Int)
+    (h : TreeInv sv) : ∀ v ∈ travSession sv s pm cb, below sv.root v = true :=
+  travSession_sound s pm cb h
+
+/-- PR_COMMAND_REORDERDATA, unconditionally: the traversal hands over existing nodes, and reorders never make a
+    node disappear, so every visited node is still a child of its parent when its turn comes. -/
+theorem index_sound_reorder {sv : Server} (sid : Nat) (key before : Bytes) (h : TreeInv sv) :
     TreeInv (reorder sv sid key before) :=
-  treeInv_reorder sid key before h hex
+  treeInv_reorder sid key before h
+
+/-- every command a session can send (`runCmd` of engine `srv`: SETDATA ± ADDTOINDEX, REMOVEDATA, subscribe,
+    unsubscribe, parameters, INSERTORDEREDDATA, REORDERDATA, client-to-client Messages, PING) -/
+theorem index_sound_runCmd {sv : Server} (sid : Nat) (c : Muscle.Eng.SrvEngine.Cmd) (h : TreeInv sv) :
+    TreeInv (Muscle.Eng.SrvEngine.runCmd sv sid c) :=
+  treeInv_runCmd sid c h
+
+/-- Every reachable server state — any interleaving of `attach`, `detach`, commands of any sessions, pushes and
+    inbox pumps, from the initial server — has at every node an index that lists existing children of that node
+    at most once (and pairwise different sibling names). -/
+theorem index_sound_reach {sv : Server} (h : Reach sv) : TreeInv sv :=
+  treeInv_reach h
+
+/-- …in particular every state of the engine `srv` on any op stream whatsoever (batches, bad ops, `case` resets
+    included). -/
+theorem index_sound_engine (lines : List (List String)) :
+    TreeInv (lines.foldl (fun st toks => (Muscle.Eng.SrvEngine.step st toks).1) ({} : Muscle.Eng.SrvEngine.St)).sv :=
+  treeInv_engine lines
+
+/-- what `TreeInv` says about one node -/
+theorem index_sound {sv : Server} (h : Reach sv) {path : List Bytes} {n : Node} (hn : getNode sv path = some n) :
+    n.index.Nodup ∧ ∀ c ∈ n.index, (findKid c n.kids).isSome :=
+  (treeInv_getNode (treeInv_reach h) hn).here.1
 
 /-- non-vacuity: a reachable tree with a non-empty index -/
 example : (getNode (insertOrderedChild ({} : Server) 0 [] (some 1) [] [97] true) []).map Node.index = some [[97]] := by
+  rw [getNode_insertOrderedChild 0 (some 1) [] [97] true (sv := {}) (parent := []) (p := Node.fresh [] none) rfl]
+  simp only [Option.map_some, insertOrderedResult_index, insertIndexAfter, if_neg nil_ne_removeFromIndexName]
   decide
 example : TreeInv (insertOrderedChild ({} : Server) 0 [] (some 1) [] [97] true) :=
   index_sound_insertOrderedChild 0 [] (some 1) [] [97] true index_sound_init
-    (by intro p hp; cases hp; left; decide)
+    (by intro p hp; cases hp; right; left; decide)
+
+/-- non-vacuity of `Reach`: attach a session, let it insert two ordered children and reorder -/
+example : Reach (Muscle.Eng.SrvEngine.runCmd (Muscle.Eng.SrvEngine.runCmd (attach {} 0 [104]).1 0 (.ins [] [] [1, 2]))
+    0 (.reorder [42] [])) :=
+  .cmd 0 _ (.cmd 0 _ (.attach 0 [104] .init))
 
 end Muscle.Props.C13
